@@ -35,7 +35,7 @@ ASSUMPTIONS = [
     'one wrapper group (a dataset and its copies) is open on the directory at a time, which keeps the model exact',
     'shutil.disk_usage is patched to "plenty" so the 1 GB free-space guard cannot interfere',
 ]
-N = {'quick': 250, 'thorough': 2000}
+N = {'quick': 250, 'thorough': 900}
 PATHS = ['idx', 'neg', 'np', 'key', 'view', 'iter', 'prefetch2']
 
 
